@@ -244,8 +244,10 @@ def c03(pid, tier, seed):
             MpOps=("insert_rel", "mp_println", "mp_suspend", "mp_clear"), MsgShapes=("e", "a", "W1", "nlA", "AnnB"), TextShapes=("T", "TW", "TW1", "T2W1", "TnlT", "TnnT", "e", "nl", "TWnnT", "TWnT"),
             Tpls=("M", "PnM", "MnC"), Fins=("AndLeave", "AndClear", "Abandon"), DTs=(0, 1000), M0="id", mode=("sim", 400 if q else 4000, 32), shards=12),
     ]
-    return screen_check(pid, tier, seed, fams,
+    res = screen_check(pid, tier, seed, fams,
                         "histories of MC_Screen interleaving println/suspend with bar life-cycles, with exhausted limiters; LogOK = every emitted line once, in order, above the region")
+    # lines of suspend closures and println calls against draws from another thread (a scheduling point before every line of a closure)
+    return add_final_state_clause(res, pid, tier, seed, [("single", 4, False), ("multi", 4, False)] if q else [("single", 5, True), ("multi", 5, True)])
 
 
 def c04(pid, tier, seed):
